@@ -24,7 +24,10 @@ F = lambda x: ("flt",) + E.float_me(float(x))
 S_ = lambda s: ("str", s)
 NONE = ("none",)
 
-FOREIGN = [NONE, ("list", []), ("other", "complex", ""), ("dict", [])]
+# falsy values of every type (a guard written `if value and ...` / `if not value: return` lets exactly these
+# through) and a few foreign objects: offered to EVERY declaration
+FALSY = [NONE, ("bool", False), I(0), F(0.0), S_(""), ("list", []), ("tuple", []), ("dict", []), ("set", False, []),
+         ("other", "complex", "")]
 
 
 def _num(k, s="Any", mult=None, mn=None, mx=None, xmax=False):
@@ -99,7 +102,18 @@ def near_ref(f):
 
 
 def near(f, budget=40):
-    """Values on and around the acceptance boundary of declaration f (most telling ones first)."""
+    """Values on and around the acceptance boundary of declaration f (most telling ones first), then
+    the falsy values of every type."""
+    own = near_own(f, budget)
+    return _dedupe(own + FALSY) if f["t"] not in ("allof", "anyof", "oneof", "not") else own
+
+
+def inner(f, budget):
+    """Candidates for ONE element position inside a container."""
+    return _dedupe(near_own(f, budget) + [NONE, S_(""), ("list", []), I(0)])
+
+
+def near_own(f, budget=40):
     t = f["t"]
     if t == "num":
         return near_num(f)[:budget]
@@ -121,8 +135,8 @@ def near(f, budget=40):
     if t in ("allof", "anyof", "oneof", "not"):
         out = []
         for g in f["fs"]:
-            out += near(g, budget)
-        return _dedupe(out)[:budget]
+            out += near_own(g, budget)
+        return _dedupe(out + FALSY)[:budget + len(FALSY)]
     # containers: one element replaced / sizes around the bounds / duplicates / the wrong container
     out = []
     if t in ("seqany", "seqeach", "seqpos", "tuple"):
@@ -136,7 +150,7 @@ def near(f, budget=40):
         else:
             gs, item = None, {"t": "any"}
         base_n = len(gs) if (gs and not (t == "tuple" and len(gs) == 1)) else 2
-        xs = near(item, 8)
+        xs = inner(item, 8)
         for x in xs:
             out.append((tag, [x] + [xs[0]] * (base_n - 1)))
         lo, hi = (f.get("sz") or [None, None])
@@ -149,7 +163,7 @@ def near(f, budget=40):
         out.append(NONE)
         return _dedupe(out)[:budget]
     if t == "set":
-        xs = [x for x in near(f["item"], 10) if G.is_hashable(x)] if f.get("item") else [I(1), S_("a"), NONE]
+        xs = [x for x in inner(f["item"], 10) if G.is_hashable(x)] if f.get("item") else [I(1), S_("a"), NONE]
         for x in xs:
             out.append(G.mk_set(False, [x]))
         out.append(G.mk_set(True, xs[:2]))
@@ -160,8 +174,8 @@ def near(f, budget=40):
         out += [("list", xs[:1]), NONE]
         return _dedupe(out)[:budget]
     if t in ("mapany", "mapkv"):
-        ks = [x for x in near(f["kf"], 8) if G.is_hashable(x)] if t == "mapkv" else [S_("a"), I(1)]
-        vs = near(f["vf"], 8) if t == "mapkv" else [I(1), NONE]
+        ks = [x for x in inner(f["kf"], 8) if G.is_hashable(x)] if t == "mapkv" else [S_("a"), I(1)]
+        vs = inner(f["vf"], 8) if t == "mapkv" else [I(1), NONE]
         for v in vs:
             out.append(G.mk_dict([(ks[0], v)]))
         for k in ks:
@@ -244,7 +258,9 @@ WRAPPERS = [
      lambda x, y: ("list", [x])),
 ]
 
-ENTRY_KINDS = ("ctor", "deser", "from_mapping", "from_other", "cast", "clone")
+UPCAST_QUICK = ("id", "arr", "mapv", "anyof", "set", "tup2")
+ENTRY_KINDS = ("ctor", "deser", "from_mapping", "from_other", "cast", "clone", "upcast")
+NK = len(ENTRY_KINDS)
 FOLLOW = (None, ["deepcopy"], ["copy"], ["pickle"], None, ["deepcopy"], None)
 
 
@@ -270,10 +286,11 @@ def flat_field(f):
     return False
 
 
-def chains_for(loose, strict, decl, x, good, kinds, follow):
+def chains_for(loose, strict, decl, x, good, kinds, follow, looser_sub=None):
     """Chains that carry candidate x to field `f` of class `strict` through the entry kinds `kinds`.
     `loose` is a base class of `strict` declaring f = Anything (so that ANY value can sit in a source
-    instance handed to from_other_class / cast_to)."""
+    instance handed to from_other_class / cast_to: a DOWN-cast); `looser_sub` is a subclass of `strict`
+    that re-declares f = Anything (an UP-cast of its instances must validate against `strict`)."""
     out = []
     tail = [list(follow)] if follow else []
     for k in kinds:
@@ -294,6 +311,10 @@ def chains_for(loose, strict, decl, x, good, kinds, follow):
             if good is None:
                 continue
             ch = [["ctor", strict, [("f", good)]], ["clone", [("f", x)]]]
+        elif k == "upcast":
+            if looser_sub is None:
+                continue
+            ch = [["ctor", looser_sub[0], [("f", x)]], ["cast", looser_sub[1]]]
         else:
             continue
         out.append(ch + tail)
@@ -325,24 +346,35 @@ def lattice(tier, seed):
             strict = {"name": "%sT%d" % (pre, wi), "base": loose["name"], "fields": [{"name": "f", "field": decl}],
                       "required": ["f"], "additional": False}
             asts.append(strict)
-            plan.append((wi, wname, need_hash, mk_val, decl, strict["name"]))
+            # the up-cast pair: a strict BASE class and a subclass that loosens f (a third level under `loose`
+            # would do as well; kept apart so that each pair has two levels)
+            if not quick or wname in UPCAST_QUICK:
+                base2 = {"name": "%sV%d" % (pre, wi), "fields": [{"name": "f", "field": decl}], "required": ["f"],
+                         "additional": False}
+                sub = {"name": "%sU%d" % (pre, wi), "base": base2["name"], "fields": [{"name": "f", "field": {"t": "any"}}],
+                       "required": ["f"], "additional": False}     # (a subclass cannot make f optional again)
+                asts += [base2, sub]
+                up = (sub["name"], base2["name"])
+            else:
+                up = None
+            plan.append((wi, wname, need_hash, mk_val, decl, strict["name"], up))
 
         def build(find_good, g=g, li=li, plan=plan, loose=loose):
             chains = []
             xs = near(g)
             y = find_good(plan[0][5], xs)          # plan[0] is the identity wrapper: the leaf itself
-            for wi, wname, need_hash, mk_val, decl, sname in plan:
-                cand = xs if (wname == "id" or not quick) else xs[:10]
+            for wi, wname, need_hash, mk_val, decl, sname, uname in plan:
+                cand = xs if (wname == "id" or not quick) else inner(g, 8)
                 vals = [mk_val(x, y) for x in cand if not (need_hash and not G.is_hashable(x))]
                 good = find_good(sname, vals)
                 for vi, v in enumerate(vals):
                     if wname == "id":
                         kinds = ENTRY_KINDS if (rich(g) or not quick) else \
-                            (ENTRY_KINDS[(vi + li) % 6], ENTRY_KINDS[(vi + li + 3) % 6])
+                            (ENTRY_KINDS[(vi + li) % NK], ENTRY_KINDS[(vi + li + 3) % NK])
                     else:
-                        kinds = ENTRY_KINDS if not quick else (ENTRY_KINDS[(vi + wi + li) % 6],)
+                        kinds = ENTRY_KINDS if not quick else (ENTRY_KINDS[(vi + wi + li) % NK],)
                     follow = FOLLOW[(vi + wi) % len(FOLLOW)]
-                    for ch in chains_for(loose["name"], sname, decl, v, good, kinds, follow):
+                    for ch in chains_for(loose["name"], sname, decl, v, good, kinds, follow, uname):
                         chains.append((wname, G.shape(g), ch))
             return chains
         groups.append((pre, asts, build))
